@@ -126,6 +126,7 @@ type Engine struct {
 	lastGot          []Ev
 	rmOrder          []ecs.Entity
 	forceQ           bool
+	lastBorderReset  int
 	extraRes         bool // resource registry was filled up by the limit test (ledger check of the order is skipped)
 	pending          *pendingDump
 	pendingRetention bool
@@ -149,7 +150,9 @@ func NewEngine(p *Plan) *Engine {
 			e.M.Reg |= 1 << uint(k)
 		}
 	}
-	if p.Listener != "none" && p.Listener != "" {
+	if p.Listener == "restricted" && p.Profile != "C12" {
+		e.S.InstallRestrictedPrimary(Sub{S: p.ListenerS, C: p.ListenerC}, p.ListenerChaos)
+	} else if p.Listener != "none" && p.Listener != "" {
 		e.S.InstallListener(p.ListenerChaos)
 	}
 	d := NewDigest()
@@ -259,6 +262,13 @@ func (e *Engine) issue(op *COp, why string) (Result, bool, *Violation) {
 			return res, false, e.viol("lock-not-enforced", op, "%s %s succeeded on a locked world (%d open queries)", op.Kind, op.Variant, len(e.Open))
 		}
 		cl := "no-panic"
+		if op.Kind == "rm" && why == "dead-entity" {
+			// a stale handle was accepted: whoever owns the ID now was removed instead (C02: a handle that was never
+			// removed is dead, alive count is off)
+			v := e.viol(cl, op, "%s %s: illegal (%s) but did not panic", op.Kind, op.Variant, why)
+			v.Also = append(v.Also, "handle")
+			return res, false, v
+		}
 		if why == "dead-target" {
 			cl = "target-accepted"
 		}
@@ -466,6 +476,14 @@ func (e *Engine) doStep(st *Step) *Violation {
 			} else {
 				opName = "qnext"
 			}
+		}
+	}
+	if e.P.Wide == "tables" && e.P.Profile == "C15" && HooksEnabled && !e.locked() && len(st.A) > 1 && st.A[1]%3 == 0 {
+		// steering only (never a verdict): reset exactly when a relation node holds a whole number of table pages
+		if n := relTablesPerNode(e.S.W); n > 0 && n%32 == 0 && n != e.lastBorderReset {
+			opName = "reset"
+			e.lastBorderReset = n
+			e.St.Probes["reset-on-table-page-border"]++
 		}
 	}
 	switch opName {
